@@ -35,6 +35,7 @@ type limCase struct {
 	LaterFile         bool // file mode: the limit is crossed in a later stage
 	MaxDur            time.Duration
 	FailSetupHandleAt uint64 // iteration id that calls Fail on the scenario-level handle (0 = never)
+	Huge              bool   // the limit is around 2^63 or 2^64-1: never reached
 	ShortPlan         bool   // staged/file: the trigger's own duration (1.2 s) is shorter than max-duration (8 s)
 }
 
@@ -58,9 +59,15 @@ func genCase(t *rapid.T) limCase {
 	}
 	c.Conc = rapid.OneOf(rapid.IntRange(1, 8), rapid.IntRange(1, 64)).Draw(t, "concurrency")
 	c.TickMs = rapid.SampledFrom([]int{5, 10, 20}).Draw(t, "tickMs")
+	if !limited && rapid.IntRange(0, 2).Draw(t, "hugeLimit") == 0 {
+		// a limit that is valid but far out of reach (around 2^63 and at the top of the range): the run is
+		// duration-bound, ids start at 1 as always
+		c.N = rapid.SampledFrom([]uint64{1<<63 - 1, 1 << 63, 1<<63 + 1, 1<<64 - 1}).Draw(t, "hugeN")
+		c.Huge = true
+	}
 	// tick size from well below N/10 to above 3N, but large enough that the limit is reached within ~40 ticks
 	n := int(c.N)
-	if n == 0 {
+	if n == 0 || c.Huge {
 		n = 40
 	}
 	lo := n/40 + 1
@@ -81,7 +88,7 @@ func genCase(t *rapid.T) limCase {
 	}
 	c.FailEvery = rapid.SampledFrom([]int{0, 0, 2, 7}).Draw(t, "failEvery")
 	c.Flags = map[string]string{}
-	c.Keeps = true
+	c.Keeps = !c.Huge
 	if limited {
 		c.MaxDur = 8 * time.Second // generous: only the limit ends the run
 	} else {
@@ -246,6 +253,9 @@ func TestProp_LimitIsExact(t *testing.T) {
 		if viaCLI {
 			cls = append(cls, "through-the-cli")
 		}
+		if c.Huge {
+			cls = append(cls, "limit-around-2^63-or-2^64")
+		}
 		stats.Case("runs", c.desc(), nontrivial, cls, func() any {
 			return map[string]any{"case": c.desc(), "invocations": inv, "elapsed_ms": elapsed.Milliseconds(), "through_the_cli": viaCLI}
 		})
@@ -261,6 +271,9 @@ func TestProp_LimitIsExact(t *testing.T) {
 			if id != uint64(i+1) {
 				rt.Fatalf("VERIF-VIOLATION C03: %d invocations observed ids %v...: expected exactly 1..%d, each once (%s)", inv, head(got, i+3), len(got), c.desc())
 			}
+		}
+		if c.Huge && inv == 0 {
+			rt.Fatalf("VERIF-VIOLATION C03: with max-iterations %d (far out of reach) the iteration function was never invoked in a run of %s (%s)", c.N, elapsed, c.desc())
 		}
 		if c.N > 0 {
 			if inv > c.N {
